@@ -346,10 +346,12 @@ def run(ctx):
         badc = [e for e in Ic.events if e.kind in ("wild_write", "unknown_call_value", "recursion_or_depth", "unknown_terminator")]
         ma_ = Ic.new_alloc(stc, "constructed", mv)
         bus_path = mpath
-        return [Ic.run_body(rb_, [Ref(ma_, bus_path, False), 0xFC + k_], stc, 0) for k_ in range(4)], badc
+        return [Ic.run_body(rb_, [Ref(ma_, bus_path, False), ad_], stc, 0) for ad_ in (0xFC, 0xFD, 0xFE, 0xFF, 0xF0)], badc
     conf_v = Agg([Opaque("IN." + f_[len("input_"):].upper()) if f_.startswith("input_") else
-                  (Fl(0.0, 5.0) if f_ in ("temp", "analog_input1", "analog_input2") else TOP) for f_ in mcf])
-    want_in = [Opaque("IN.FC"), Opaque("IN.FD"), Opaque("IN.FE"), Opaque("IN.FF")]
+                  (Opaque("IN.DI1") if f_ == "digital_input1" else
+                   (Fl(0.0, 5.0) if f_ in ("temp", "analog_input1", "analog_input2") else TOP)) for f_ in mcf])
+    # (the four input registers and the board's digital input port, which the configuration sets as well)
+    want_in = [Opaque("IN.FC"), Opaque("IN.FD"), Opaque("IN.FE"), Opaque("IN.FF"), Opaque("IN.DI1")]
     raw_i = p.field_index(MACH, "raw")
     bus_i = p.field_index("L::machine::raw::RawMachine", "bus")
     cases_c = [("Machine::new", MACH + "::new", lambda Ic, stc: [conf_v], (raw_i, bus_i)),
@@ -357,7 +359,7 @@ def run(ctx):
     MS_ = "B::tui::supervisor_wrapper::MachineState"
     if MS_ in p.types and "B::args::InitialMachineConfiguration" in p.types:
         icf = p.field_names("B::args::InitialMachineConfiguration")
-        iconf = Agg([Opaque("IN." + f_.upper()) if f_ in ("fc", "fd", "fe", "ff") else
+        iconf = Agg([Opaque("IN." + f_.upper()) if f_ in ("fc", "fd", "fe", "ff", "di1") else
                      (Fl(0.0, 5.0) if f_ in ("temp", "ai1", "ai2") else TOP) for f_ in icf])
         mi = p.field_index(MS_, "machine")
 
@@ -375,7 +377,7 @@ def run(ctx):
             got_, badc_ = None, [str(e_)]
         chk.ob("construct/%s" % label_, got_ == want_in and not badc_,
                "a machine constructed from a configuration (with or without a program) presents the configured input registers at "
-               "0xFC-0xFF", p.need_body(fnp_).loc(), "reads of 0xfc..0xff after construction: %s %s" % (got_, [repr(x)[:80] for x in badc_[:1]]),
+               "0xFC-0xFF and the configured digital input at 0xF0", p.need_body(fnp_).loc(), "reads of 0xfc..0xff, 0xf0 after construction: %s %s" % (got_, [repr(x)[:80] for x in badc_[:1]]),
                "A4 of the constructor with opaque configured values, then Bus::read")
     # ---- a program's load/store is the bus access the control word asks for: on every path, at the address in the
     # selected register, storing the ALU output (pipeline agreement, shared with C01) ---------------------------------
